@@ -572,7 +572,7 @@ impl<'a> Ctx<'a> {
         }
         let k = self.r.below(if depth == 0 { 8 } else { 30 });
         match k {
-            0 => Expr::Int(self.r.pick(&["0", "1", "42", "1_000"]).to_string()),
+            0 => Expr::Int(self.r.pick(&["0", "1", "42", "1_000", "0xFF", "0XaB_c", "0b101", "0o17"]).to_string()),
             1 => Expr::Str(if self.cfg.non_ascii && self.r.chance(1, 2) { "héllo 💣 wörld".into() } else { "s".into() }),
             2 => Expr::Float("1.5".into()),
             3 | 4 | 5 => self.var_use(site),
@@ -672,7 +672,22 @@ impl<'a> Ctx<'a> {
                     Ident::use_(n, Some(d), core, st),
                 );
                 if arity != usize::MAX && self.r.chance(3, 4) {
-                    let args = (0..arity).map(|_| Arg { label: None, value: self.gen_expr(depth.saturating_sub(1), "arg") }).collect();
+                    // labelled arguments at qualified call sites too (`m.f(size: 1, to: x)`): the label names a
+                    // parameter declared in ANOTHER file
+                    let params: Vec<Option<String>> = self.sigs[mi].fns.iter().find(|f| f.decl == d).map(|f| f.params.iter().map(|p| p.0.clone()).collect()).unwrap_or_default();
+                    let mut args: Vec<Arg> = Vec::new();
+                    for k in 0..arity {
+                        let l = match (params.get(k).cloned().flatten(), self.r.chance(1, 2)) {
+                            (Some(l), true) => Some(Ident { text: l, bind: Bind::Plain, site: "fn-label" }),
+                            _ => None,
+                        };
+                        args.push(Arg { label: l, value: self.gen_expr(depth.saturating_sub(1), "arg") });
+                    }
+                    if args.windows(2).any(|w| w[0].label.is_some() && w[1].label.is_none()) {
+                        for a in args.iter_mut() {
+                            a.label = None;
+                        }
+                    }
                     Expr::Call(Box::new(head), args)
                 } else {
                     head
@@ -754,7 +769,7 @@ impl<'a> Ctx<'a> {
             27 => {
                 let b = self.gen_operand(depth - 1, "tuple-index-base");
                 match b {
-                    Expr::TupleIndex(..) | Expr::Int(_) | Expr::Float(_) => self.var_use(site),
+                    Expr::Int(_) | Expr::Float(_) => self.var_use(site),
                     b => {
                         let ti = Expr::TupleIndex(Box::new(b), self.r.below(3) as u32);
                         // the index as an inner link of a postfix chain: `x.0.name`, `x.1(a)`
@@ -787,7 +802,7 @@ impl<'a> Ctx<'a> {
                     // altogether, so only literal messages are generated.
                     Expr::Todo(Some(Box::new(Expr::Str("not yet".into()))))
                 }
-                _ => Expr::BitArray("<<1, 2:size(8)>>".into()),
+                _ => Expr::BitArray((*self.r.pick(&["<<1, 2:size(8)>>", "<<1, <<2>>:bits>>", "<<<<1>>:bits, <<2, <<3>>:bits>>:bits>>"])).to_string()),
             },
             _ => self.var_use(site),
         }
@@ -917,20 +932,34 @@ impl<'a> Ctx<'a> {
                     }]);
                 }
             }
-            // guard: evaluated in the *outer* scope by construction (no clause variables
-            // used), outside the core
-            let guard = if self.cfg.non_core && self.r.chance(1, 5) {
-                let names: Vec<String> = self.visible_lower().into_iter().filter(|n| !taken.contains(n)).collect();
+            // guard: evaluated in the *clause* scope (the clause's own pattern variables are
+            // visible in it and shadow outer names of their spelling). Gleam allows only simple
+            // expressions there: a visible name compared with a literal or another visible name.
+            self.scopes.push(binds);
+            let guard = if self.r.chance(1, 3) {
+                let names: Vec<String> = self.visible_lower();
                 if names.is_empty() {
                     None
                 } else {
-                    let n = names[self.r.below(names.len())].clone();
+                    // prefer a name the clause itself binds: that is where scoping can go wrong
+                    let own: Vec<String> = taken.iter().filter(|n| names.contains(n)).cloned().collect();
+                    let pick = |r: &mut crate::rng::Rng| if !own.is_empty() && r.chance(2, 3) { own[r.below(own.len())].clone() } else { names[r.below(names.len())].clone() };
+                    let n = pick(&mut *self.r);
                     let t = self.lookup_value(&n);
-                    Some(Expr::Bin(BinOp::Eq, Box::new(Expr::Var(Ident::use_(n, t, false, "guard"))), Box::new(Expr::Int("1".into()))))
+                    let lhs = Expr::Var(Ident::use_(n, t, true, "guard"));
+                    let rhs = if self.r.chance(1, 3) {
+                        let m = pick(&mut *self.r);
+                        let t = self.lookup_value(&m);
+                        Expr::Var(Ident::use_(m, t, true, "guard"))
+                    } else {
+                        Expr::Int("1".into())
+                    };
+                    Some(Expr::Bin(BinOp::Eq, Box::new(lhs), Box::new(rhs)))
                 }
             } else {
                 None
             };
+            let binds = self.scopes.pop().unwrap();
             self.scopes.push(binds);
             let body = self.gen_expr(depth, "clause-body");
             self.scopes.pop();
@@ -1144,7 +1173,9 @@ pub fn normalise(e: &mut Expr) {
             normalise(b);
             // `x.0.1` lexes `0.1` as a float (unsupported, documented); `x.0.name` is fine and
             // must stay a plain postfix chain (the index must not be read as `0.`)
-            let bad_lit = matches!(**b, Expr::Int(_) | Expr::Float(_)) || (is_index && matches!(**b, Expr::TupleIndex(..)));
+            // (`x.0.1` is a chain of two tuple indices: nested tuples)
+            let _ = is_index;
+            let bad_lit = matches!(**b, Expr::Int(_) | Expr::Float(_));
             if !is_postfix_base_ok(b) || bad_lit {
                 let inner = std::mem::replace(&mut **b, Expr::Int("0".into()));
                 **b = wrap(inner);
@@ -1519,7 +1550,13 @@ pub fn generate(r: &mut Rng, cfg: &GenCfg) -> Workspace {
                 let name = if ctx.r.chance(1, 8) {
                     ParamName::Discard(if ctx.r.chance(1, 2) { "_".into() } else { "_unused".into() })
                 } else {
-                    match ctx.fresh_name(&taken) {
+                    // one labelled parameter in three is spelled like its label (`sep sep: String`):
+                    // a label written at a call site then has the parameter's spelling
+                    let same_as_label = match &label {
+                        Some(l) if ctx.r.chance(1, 3) && !taken.contains(l) => Some(l.clone()),
+                        _ => None,
+                    };
+                    match same_as_label.or_else(|| ctx.fresh_name(&taken)) {
                         Some(nm) => {
                             taken.push(nm.clone());
                             let d = new_decl(ctx.decls, SymKind::Param, &nm, mi, false, None);
